@@ -10,6 +10,11 @@
 //!      of the replica unchanged (evaluated in the generator, see `ProcessEvent`).
 //!  (3) provenance: every (group, member) a replica ever reports is reachable through members
 //!      introduced by a `Create`/`Add` among the operations that replica accepted.
+//!  (1b) independent bookkeeping: if the causal past of an accepted operation is conflict-free,
+//!      the prefix replica's `root_members` of every group must equal what the accepted operations
+//!      themselves declare (a replica that reports a stale level cannot vouch for itself).
+//!  (4) state level: random sequences of the real state functions (hook H6) against the same
+//!      bookkeeping, biased towards remove → re-add with another access.
 //! The converse "authorised ⇒ accepted" is not judged. Panics are recorded; they count only when
 //! the operation targets a group that exists at its dependencies.
 
@@ -37,6 +42,126 @@ fn prefix_replica<C: Cx>(h: &History<C>, op: &Op<C>) -> Prefix<C> {
     Prefix::Built(y)
 }
 
+
+// ---------------------------------------------------------------------------------------------
+// Independent bookkeeping: what the accepted operations themselves declare
+// ---------------------------------------------------------------------------------------------
+
+/// group → (is_group, id) → (level, conditions) of the active members.
+type RefState = BTreeMap<char, BTreeMap<(bool, char), (u8, Option<i64>)>>;
+
+/// Fold the operations (a causal order) into the membership they declare. Only meaningful for a
+/// conflict-free set of accepted operations (see `Concurrency::conflict_free`): there every
+/// operation took effect exactly as validated and operations on different targets commute.
+fn declared_state<C: Cx>(ops: &[&Op<C>]) -> RefState {
+    let mut st: RefState = BTreeMap::new();
+    for op in ops {
+        let g = st.entry(op.group).or_default();
+        let key = |m: &GroupMember<char>| (m.is_group(), m.id());
+        match &op.action {
+            GroupAction::Create { initial_members } => {
+                g.clear();
+                for (m, a) in initial_members {
+                    g.insert(key(m), acc(a));
+                }
+            }
+            GroupAction::Add { member, access } => {
+                g.entry(key(member)).or_insert(acc(access));
+            }
+            GroupAction::Remove { member } => {
+                g.remove(&key(member));
+            }
+            // "No modification will occur if the promoted member already has Manage access."
+            GroupAction::Promote { member, access } => {
+                if let Some(cur) = g.get_mut(&key(member)) {
+                    if cur.0 != 3 {
+                        *cur = acc(access);
+                    }
+                }
+            }
+            // "No modification will occur if the demoted member already has Pull access."
+            GroupAction::Demote { member, access } => {
+                if let Some(cur) = g.get_mut(&key(member)) {
+                    if cur.0 != 0 {
+                        *cur = acc(access);
+                    }
+                }
+            }
+        }
+    }
+    st
+}
+
+/// Causality between the accepted operations of one history.
+struct Concurrency {
+    anc: Vec<BTreeSet<usize>>,
+    /// Concurrent pairs (i < j) of the same group that may interact in the resolver or in a merge:
+    /// same target, one targets the other's author, or one of them creates the group.
+    conflicts: Vec<(usize, usize)>,
+}
+
+impl Concurrency {
+    fn new<C: Cx>(h: &History<C>) -> Self {
+        let anc: Vec<BTreeSet<usize>> = h.ops.iter().map(|o| h.ancestors(o).into_iter().collect()).collect();
+        let mut conflicts = Vec::new();
+        for j in 0..h.ops.len() {
+            for i in 0..j {
+                if anc[j].contains(&i) || h.ops[i].group != h.ops[j].group {
+                    continue;
+                }
+                let (a, b) = (&h.ops[i], &h.ops[j]);
+                let (ta, tb) = (action_target(&a.action), action_target(&b.action));
+                let clash = match (ta, tb) {
+                    (Some(ta), Some(tb)) => {
+                        ta == tb || ta == GroupMember::Individual(b.author) || tb == GroupMember::Individual(a.author)
+                    }
+                    _ => true, // a Create concurrent with anything in its group
+                };
+                if clash {
+                    conflicts.push((i, j));
+                }
+            }
+        }
+        Concurrency { anc, conflicts }
+    }
+
+    fn conflict_free(&self, past: &BTreeSet<usize>) -> bool {
+        !self.conflicts.iter().any(|(i, j)| past.contains(i) && past.contains(j))
+    }
+}
+
+/// Does the causal past contain "member removed, later re-added with another level" for `who`?
+fn readded_with_other_level<C: Cx>(ops: &[&Op<C>], group: char, who: char) -> bool {
+    let mut last_level: Option<u8> = None;
+    let mut removed_level: Option<u8> = None;
+    let me = GroupMember::Individual(who);
+    for op in ops.iter().filter(|o| o.group == group) {
+        match &op.action {
+            GroupAction::Create { initial_members } => {
+                last_level = initial_members.iter().find(|(m, _)| *m == me).map(|(_, a)| level_u8(&a.level));
+            }
+            GroupAction::Add { member, access } if *member == me => {
+                if let Some(old) = removed_level {
+                    if old != level_u8(&access.level) {
+                        return true;
+                    }
+                }
+                last_level = Some(level_u8(&access.level));
+            }
+            GroupAction::Remove { member } if *member == me => {
+                removed_level = last_level.take();
+            }
+            GroupAction::Promote { member, access } | GroupAction::Demote { member, access } if *member == me => {
+                if last_level.is_some() {
+                    last_level = Some(level_u8(&access.level));
+                }
+            }
+            _ => {}
+        }
+    }
+    false
+}
+
 /// Verdict of check (1) for one accepted operation.
 enum Verdict {
     Fine,
@@ -44,8 +169,37 @@ enum Verdict {
     Bad(String, String),
 }
 
-fn judge_accepted<C: Cx>(op: &Op<C>, y: &State<C>) -> Verdict {
+fn judge_accepted<C: Cx>(op: &Op<C>, y: &State<C>, declared: Option<&RefState>, groups: &[char]) -> Verdict {
     let kind = action_kind(&op.action);
+    // Conflict-free causal past: the replica's view of every group at the dependencies must be
+    // the one the accepted operations declared (membership, level, conditions).
+    if let Some(decl) = declared {
+        for &g in groups {
+            let want: Vec<Entry> = decl
+                .get(&g)
+                .map(|m| m.iter().map(|(k, v)| (k.0, k.1, v.0, v.1)).collect())
+                .unwrap_or_default();
+            let got = root_members(y, g);
+            if got != want {
+                let ids = |v: &Vec<Entry>| v.iter().map(|e| (e.0, e.1)).collect::<BTreeSet<_>>();
+                let lv = |v: &Vec<Entry>| v.iter().map(|e| (e.0, e.1, e.2)).collect::<BTreeSet<_>>();
+                let what = if ids(&got) != ids(&want) {
+                    "membership"
+                } else if lv(&got) != lv(&want) {
+                    "level"
+                } else {
+                    "conditions"
+                };
+                return Verdict::Bad(
+                    format!("C33:state-at-dependencies-not-as-declared:{what}"),
+                    format!(
+                        "at the dependencies of accepted operation {} ({kind} by {}) a replica that processed exactly its (conflict-free) causal past reports root_members({g}) = {:?}, but the accepted create/add/remove/promote/demote operations declare {:?}",
+                        op.id, op.author, got, want
+                    ),
+                );
+            }
+        }
+    }
     if let GroupAction::Create { .. } = &op.action {
         if y.has_group(op.group) {
             return Verdict::Bad(
@@ -68,6 +222,15 @@ fn judge_accepted<C: Cx>(op: &Op<C>, y: &State<C>) -> Verdict {
     }
     let listed = &views[0];
     let target = action_target(&op.action).unwrap();
+    // An equal-counter tie between differing accesses with conditions (C31/C32 known finding) on
+    // the author or the target makes their level depend on the merge order each replica happened
+    // to use, possibly frozen into a stored state: this replica cannot speak for the accepting one.
+    if C::WITH
+        && (has_equal_counter_tie(y, op.group, GroupMember::Individual(op.author))
+            || has_equal_counter_tie(y, op.group, target))
+    {
+        return Verdict::Ambiguous;
+    }
     let target_listed = listed.iter().any(|e| e.0 == target.is_group() && e.1 == target.id());
     let self_remove = matches!(&op.action, GroupAction::Remove { member } if *member == GroupMember::Individual(op.author));
     let author_ok = a0 == Some(3) || (self_remove && a0.is_some());
@@ -156,6 +319,130 @@ fn provenance<C: Cx>(h: &History<C>, a: &Actor<C>) -> Option<String> {
     None
 }
 
+
+// ---------------------------------------------------------------------------------------------
+// State level: the membership state functions against what their arguments declare (hook H6)
+// ---------------------------------------------------------------------------------------------
+
+/// Random sequences of the real `create/add/remove/promote/demote` (biased towards removing a
+/// member and re-adding it with another access) against a bookkeeping written from the functions'
+/// documented contract: `Ok` only for an active manager (or self-removal) on a valid target, and
+/// afterwards every active member carries exactly the access the last accepted action declared.
+fn state_level<C: Cx>(rep: &mut Report, rng: &mut Rng, seed: u64, cases: u64) {
+    use p2panda_auth::group::verif as st;
+    type View = BTreeMap<u8, (u8, Option<i64>)>;
+    for case in 0..cases {
+        let mut model: View = BTreeMap::new();
+        let mut init = vec![(0u8, access::<C>(3, None))];
+        for id in 1..rng.range(1, 3) as u8 {
+            init.push((id, access(rng.below(4) as u8, C::generate(rng))));
+        }
+        for (id, a) in &init {
+            model.insert(*id, acc(a));
+        }
+        let mut s = st::create(&init);
+        let mut removed: Vec<(u8, u8)> = Vec::new(); // (id, level it had)
+        let mut trace: Vec<String> = vec![format!("create {:?}", model)];
+        let mut readd_seen = false;
+        for _ in 0..rng.range(3, 9) {
+            let managers: Vec<u8> = model.iter().filter(|(_, v)| v.0 == 3).map(|(k, _)| *k).collect();
+            let mut actor = rng.below(5) as u8;
+            let mut target = rng.below(5) as u8;
+            let mut a = access::<C>(rng.below(4) as u8, C::generate(rng));
+            let mut kind = rng.below(4);
+            if rng.chance(0.35) && !managers.is_empty() {
+                actor = *rng.pick(&managers);
+                if let Some((id, old)) = removed.last().cloned() {
+                    // Re-add a removed member with another level.
+                    kind = 0;
+                    target = id;
+                    let mut l = rng.below(4) as u8;
+                    if l == old {
+                        l = (l + 1) % 4;
+                    }
+                    a = access(l, C::generate(rng));
+                } else if let Some(t) = model.keys().cloned().find(|k| *k != actor) {
+                    kind = 1;
+                    target = t;
+                }
+            }
+            let name = ["add", "remove", "promote", "demote"][kind as usize];
+            let r = match kind {
+                0 => st::add(s.clone(), actor, target, a.clone()),
+                1 => st::remove(s.clone(), actor, target),
+                2 => st::promote(s.clone(), actor, target, a.clone()),
+                _ => st::demote(s.clone(), actor, target, a.clone()),
+            };
+            trace.push(format!("{name}(actor={actor}, target={target}, access={:?}) -> {}", acc(&a), if r.is_ok() { "Ok" } else { "Err" }));
+            rep.bump("state_function_calls", 1);
+            let Ok(next) = r else { continue };
+            let actor_level = model.get(&actor).map(|v| v.0);
+            let self_remove = kind == 1 && actor == target && actor_level.is_some();
+            let target_active = model.contains_key(&target);
+            let witness = |what: &str| json!({"seed": seed, "state_case": case, "conditions": C::NAME, "trace": trace, "what": what});
+            if actor_level != Some(3) && !self_remove {
+                rep.violation(
+                    &format!("C33:state:accepted:author-not-manager:{name}"),
+                    format!("state::{name} returned Ok for actor {actor} which is {} in the declared state", if actor_level.is_none() { "not an active member".into() } else { format!("a member with level {}", actor_level.unwrap()) }),
+                    witness("actor"),
+                );
+                break;
+            }
+            if (kind == 0) == target_active {
+                rep.violation(
+                    &format!("C33:state:accepted:invalid-target:{name}"),
+                    format!("state::{name} returned Ok although target {target} is {} an active member in the declared state", if target_active { "already" } else { "not" }),
+                    witness("target"),
+                );
+                break;
+            }
+            match kind {
+                0 => {
+                    if removed.iter().any(|(id, _)| *id == target) {
+                        readd_seen = true;
+                        removed.retain(|(id, _)| *id != target);
+                    }
+                    model.insert(target, acc(&a));
+                }
+                1 => {
+                    let old = model.remove(&target).unwrap();
+                    removed.push((target, old.0));
+                }
+                2 => {
+                    if model[&target].0 != 3 {
+                        model.insert(target, acc(&a));
+                    }
+                }
+                _ => {
+                    if model[&target].0 != 0 {
+                        model.insert(target, acc(&a));
+                    }
+                }
+            }
+            let got: View = next.access_levels().into_iter().map(|(id, a)| (id, acc(&a))).collect();
+            if got != model {
+                let what = if got.keys().collect::<Vec<_>>() != model.keys().collect::<Vec<_>>() {
+                    "membership"
+                } else if got.iter().any(|(k, v)| model[k].0 != v.0) {
+                    "level"
+                } else {
+                    "conditions"
+                };
+                rep.violation(
+                    &format!("C33:state:access-not-as-declared:{what}:{name}"),
+                    format!("after an accepted {name} the state reports active members {:?}, the accepted actions declare {:?}", got, model),
+                    witness("state"),
+                );
+                break;
+            }
+            s = next;
+        }
+        if readd_seen {
+            rep.bump("state_sequences_with_readd_other_level", 1);
+        }
+    }
+}
+
 fn run_case<C: Cx>(args: &Args, case: u64, rep: &mut Report) {
     let mut rng = Rng::fork(args.seed, case);
     let params = Params::random(&mut rng, 0.3, cfg!(miri));
@@ -172,6 +459,12 @@ fn run_case<C: Cx>(args: &Args, case: u64, rep: &mut Report) {
         }
     };
 
+    let conc = Concurrency::new(&h);
+    rep.bump("readd_with_other_access_patterns", h.readd_patterns);
+    rep.bump("readded_member_then_acts_ops", h.readd_then_act);
+    if h.params.branches == 1 {
+        rep.bump("linear_histories", 1);
+    }
     let mut judged: BTreeSet<u32> = BTreeSet::new();
     let mut hostile_rejected_auth = 0u64;
     let mut hostile_accepted = 0u64;
@@ -226,7 +519,25 @@ fn run_case<C: Cx>(args: &Args, case: u64, rep: &mut Report) {
                     rep.bump("prefix_replica_failed", 1);
                     rep.extra("prefix_replica_failure_example", json!(why));
                 }
-                Prefix::Built(y) => match judge_accepted(&ev.op, &y) {
+                Prefix::Built(y) => {
+                    let past: BTreeSet<usize> = match ev.index {
+                        Some(i) if i < conc.anc.len() && h.ops[i].id == ev.op.id => conc.anc[i].clone(),
+                        _ => h.ancestors(&ev.op).into_iter().collect(),
+                    };
+                    let past_ops: Vec<&Op<C>> = past.iter().map(|i| &h.ops[*i]).collect();
+                    let declared = if conc.conflict_free(&past) {
+                        rep.bump("accepted_ops_with_conflict_free_past_checked_against_declared_state", 1);
+                        Some(declared_state(&past_ops))
+                    } else {
+                        None
+                    };
+                    if readded_with_other_level(&past_ops, ev.op.group, ev.op.author) {
+                        rep.bump("accepted_ops_by_member_readded_with_other_level", 1);
+                        if declared.is_some() {
+                            rep.bump("accepted_ops_by_member_readded_with_other_level_conflict_free", 1);
+                        }
+                    }
+                    match judge_accepted(&ev.op, &y, declared.as_ref(), &h.groups) {
                     Verdict::Fine => rep.bump("accepted_ops_judged_fine", 1),
                     Verdict::Ambiguous => rep.bump("accepted_ops_ambiguous_prefix_view", 1),
                     Verdict::Bad(sig, what) => {
@@ -241,7 +552,8 @@ fn run_case<C: Cx>(args: &Args, case: u64, rep: &mut Report) {
                             }),
                         );
                     }
-                },
+                    }
+                }
             }
         }
     }
@@ -299,6 +611,12 @@ pub fn run(args: &Args) {
         if cfg!(miri) { 1 } else { 40 },
     );
     let n = if cfg!(miri) { 2 } else { args.n(1000, 30000) };
+    {
+        let mut rng = Rng::fork(args.seed, u64::MAX);
+        let k = if cfg!(miri) { 20 } else { args.n(20_000, 500_000) };
+        state_level::<()>(&mut rep, &mut rng, args.seed, k);
+        state_level::<Cond>(&mut rep, &mut rng, args.seed, k);
+    }
     let trace = std::env::var("VH_TRACE").is_ok();
     let first = args.param_u64("from", 0);
     for case in first..n {
@@ -316,5 +634,9 @@ pub fn run(args: &Args) {
         }
     }
     rep.extra("histories", json!(n));
+    let seen = |k: &str| rep.extra.get(k).and_then(|v| v.as_u64()).unwrap_or(0);
+    if !cfg!(miri) && (seen("readded_member_then_acts_ops") == 0 || seen("state_sequences_with_readd_other_level") == 0) {
+        rep.inconclusive("no remove -> re-add with another access -> act pattern was generated");
+    }
     rep.finish(args);
 }
